@@ -211,6 +211,21 @@ def evaluate_disagrees(root, exact_eval=None):
         want = r.value
         if abs(want) > 10**12:
             continue
+        # float evaluation may only be compared with the exact value when no intermediate result is large enough
+        # for rounding and cancellation to matter: every sub-expression must stay below 10^6 in magnitude
+        small = True
+        for sub in A.preorder(root):
+            if sub.left is None and sub.right is None:
+                continue
+            try:
+                rs = X.try_eval(sub, {k: Fraction(v) for k, v in env.items()})
+            except (X.NonFinite, X.Malformed):
+                rs = None
+            if rs is None or rs.is_eq or abs(rs.value) > 10**6:
+                small = False
+                break
+        if not small:
+            continue
         try:
             got = root.evaluate(env)
         except Exception:
